@@ -13,6 +13,7 @@ Require Import Zrs.gen.Generated Zrs.model.Headers Zrs.model.BlockDec Zrs.model.
 Require Import Zrs.proofs.C03_HufTable Zrs.proofs.C13_Canonical Zrs.proofs.C13_CanonCode Zrs.proofs.C13_LitAll Zrs.proofs.C13_Direct.
 Require Import Zrs.model.SeqEnc Zrs.model.FseEnc Zrs.model.WeightEnc Zrs.proofs.C12_SeqStream Zrs.proofs.C12_Desc Zrs.proofs.C13_WeightStream Zrs.proofs.C13_WeightDesc Zrs.proofs.C12_AvoidBits Zrs.proofs.C13_WeightTable Zrs.proofs.C13_WeightFinal.
 Require Import Zrs.model.FseNorm Zrs.proofs.C13_WeightModel.
+Require Import Zrs.proofs.C13_EncCanon Zrs.proofs.C13_Agree.
 Open Scope Z_scope.
 
 Theorem C13_shape_valid : forall n, 2 <= n <= 256 ->
@@ -250,6 +251,38 @@ Print Assumptions C13_raw_literals_decode.
 Print Assumptions C13_rle_literals_decode.
 Print Assumptions C13_one_stream_headers.
 Print Assumptions C13_one_stream_huffman_literals_decode.
+(** *** the compressor's code and the decoder's table agree, for EVERY weight list
+
+    [enc_build_from_weights] is the compressor's [build_from_weights]: sort the symbols with a weight by (weight, symbol),
+    hand out consecutive codes, shifting right when the weight grows.  In closed form the code of a symbol of weight w is
+    (total weight of the lighter symbols) / 2^(w-1) + (number of smaller symbols of the same weight) -- and that is the
+    code word the decoder's table holds for the symbol (first index of its block, shortened to the code length), with
+    the same length: for every weight list the decoder accepts (at most 255 explicit weights), the compressor being
+    given the same weights plus the last one, which the decoder infers *)
+Theorem C13_compressor_code_in_closed_form : forall W nmax codes, Forall (fun w => 0 <= w <= Z.of_nat nmax) W ->
+  enc_build_from_weights W = ROk codes ->
+  forall s, 0 <= s < Z.of_nat (length W) -> let w := nth (Z.to_nat s) W (-1) in 0 < w ->
+    nth (Z.to_nat s) codes (0, 0) =
+      (below (Z.to_nat (w - 1)) W / 2 ^ (w - 1) + cnt w (firstn (Z.to_nat s) W), Z.log2 (kraft W) - w + 1).
+Proof. exact enc_codes_closed_form. Qed.
+
+Theorem C13_compressor_code_is_the_decoder_code : forall ws dec M bits ranks idxs t,
+  Forall (fun w => 0 <= w) ws -> (length ws <= 255)%nat ->
+  build_table_from_weights ws = ROk (dec, M, bits, ranks, idxs) -> ht_decode t = dec -> ht_max_bits t = M ->
+  exists lw codes, 1 <= lw <= M /\ enc_build_from_weights (ws ++ [lw]) = ROk codes /\
+    forall s, 0 <= s <= Z.of_nat (length ws) -> 0 < nth (Z.to_nat s) (ws ++ [lw]) 0 ->
+      code_of_dec t s = (fst (nth (Z.to_nat s) codes (0, 0)), Z.to_nat (snd (nth (Z.to_nat s) codes (0, 0)))).
+Proof. exact encoder_and_decoder_agree. Qed.
+
+Example C13_agreement_example :
+  match enc_build_from_weights [2; 1; 1; 3], build_table_from_weights [2; 1; 1] with
+  | ROk codes, ROk (dec, M, _, _, _) => codes = [(1, 2); (0, 3); (1, 3); (1, 1)] /\ M = 3 /\ map h_sym dec = [1; 2; 0; 0; 3; 3; 3; 3]
+  | _, _ => False
+  end.
+Proof. vm_compute. auto. Qed.
+
+Print Assumptions C13_compressor_code_in_closed_form.
+Print Assumptions C13_compressor_code_is_the_decoder_code.
 Print Assumptions C13_decoder_table_is_a_complete_prefix_code.
 Print Assumptions C13_code_words_of_every_table_resolve.
 Print Assumptions C13_huffman_literals_section_decodes.
